@@ -406,6 +406,13 @@ func (propC10) Exec(x any, choices []int32) RunOut {
 		if c.Key == "" {
 			return
 		}
+		if (c.Kind == "cut" || (c.Kind == "cancel" && c.Client == "simgrpc")) && gerr == nil && bytes.Equal(got, content) {
+			// the link broke after the server had everything (or the response was lost): the caller
+			// cannot know; a complete new value is as legitimate as the old one, a partial one never is
+			// (a cancellation races with the frames already queued, as it does over real HTTP/2)
+			probes["abort-after-server-completed"]++
+			return
+		}
 		if c.Prev >= 0 {
 			if gerr != nil {
 				fail("lost-write", "previous-value-gone", fmt.Sprintf("the write failed (%v) and the key's previous value is gone: Get -> %v", opErr, gerr))
